@@ -27,7 +27,7 @@ SEP=""
 for c in $CHECKS; do
   cd /verif
   T0=$(date +%s)
-  VERIF_OUT=/tmp/seed_detect_out ./check $c quick > /tmp/seed_detect_${S}_$c.log 2>&1; RC=$?
+  VERIF_OUT=/tmp/seed_detect_out timeout 3000 ./check $c quick > /tmp/seed_detect_${S}_$c.log 2>&1; RC=$?
   T1=$(date +%s)
   NV=$(grep -c '^VIOLATION' /tmp/seed_detect_${S}_$c.log)
   FIRST=$(grep -A1 '^VIOLATION' /tmp/seed_detect_${S}_$c.log | grep 'obligation:' | head -1 | cut -c1-300 | sed 's/"/\\"/g')
